@@ -40,7 +40,7 @@ def population(ctx, flavour):
             ["-limit", 100 if q else 400, "-nrandom", 24 if q else 100])
 
 
-def campaign(ctx, flavour="mix", trace=False, cases=None, inputs_file=None, variants=None, keep=False, name="camp"):
+def campaign(ctx, flavour="mix", trace=False, cases=None, inputs_file=None, variants=None, keep=False, name="camp", cells=False):
     out = ctx.sub(name)
     if not os.path.exists(NODE22):
         ctx.assumptions.append("node >= 22 not found: TypeScript variant unexplored")
@@ -51,6 +51,8 @@ def campaign(ctx, flavour="mix", trace=False, cases=None, inputs_file=None, vari
         args.append("-trace")
     if keep:
         args.append("-keep")
+    if cells:
+        args.append("-cells")
     if variants:
         args += ["-variants", variants]
     if cases:
@@ -179,14 +181,14 @@ def input_from_trace(shard, l):
     return last
 
 
-def run_level(ctx, replay, module, invs, flavour="mix", trace=False, prefix="trace", variants=None):
+def run_level(ctx, replay, module, invs, flavour="mix", trace=False, prefix="trace", variants=None, cells=False):
     """Campaign + trace validation + confirmation of every violation in fresh processes."""
     cfgname = module.replace(".tla", "") + "_" + ctx.prop + ".cfg"
     if replay:
         out, recs = campaign(ctx, flavour, trace, cases=os.path.join(replay, "cases.json"),
-                             inputs_file=os.path.join(replay, "inputs.txt"), variants=variants)
+                             inputs_file=os.path.join(replay, "inputs.txt"), variants=variants, cells=cells)
     else:
-        out, recs = campaign(ctx, flavour, trace, variants=variants)
+        out, recs = campaign(ctx, flavour, trace, variants=variants, cells=cells)
     results = validate(ctx, out, module, cfgname, invs, prefix)
     viols = violations_of(out, results)
     unconfirmed = 0
